@@ -7,6 +7,7 @@ import JumanjiModel.Env.Game2048.Bounds
 import JumanjiModel.Env.Game2048.BoardLemmas
 import JumanjiModel.Env.Game2048.EpisodeLemmas
 import JumanjiModel.Env.Game2048.ResetLemmas
+import JumanjiModel.Env.Game2048.SpecLemmas
 open Jm Game2048
 
 namespace Props.C09
@@ -22,6 +23,26 @@ theorem game2048_move_eq_spec (b : Board) (a : Nat) (ha : a < 4) (hs : Square b)
 
 example : moveLeftRow [1, 1, 1, 1, 2, 0, 2] = ([2, 2, 3, 0, 0, 0, 0], 16) := by decide +kernel
 example : Square [[1, 1, 0], [0, 2, 2], [3, 0, 3]] := by unfold Square; decide
+
+/-- (wave 3) WHOLE-STEP refinement, all fields: on every square board whose cached mask is the legality of the four moves
+(an invariant from `reset` on: `game2048_consistent_along`), for each of the four moves and EVERY draw, the transliterated
+`Game2048.step` (transform, row loops, transform back, spawn decided by the CACHED mask bit, `_get_action_mask`, `lax.cond`)
+equals the rules `stepL2` written directly: slide; a tile is spawned iff the move changed the board; reward = values of the
+merged tiles; new mask = legality on the new board; LAST iff no move is legal there — successor state (board, step count,
+mask, score), step type, reward, discount and observation -/
+theorem game2048_step_eq_rules (s : State) (a : Nat) (d : Draw) (ha : a < 4) (hs : Square s.board)
+    (hm : s.actionMask = legalMask s.board) : step s a d = stepL2 s a d := Game2048.step_eq_stepL2 s a d ha hs hm
+
+/-- what `stepL2` says when no move is legal afterwards / some move is -/
+theorem game2048_rules_last_iff (s : State) (a : Nat) (d : Draw) :
+    (stepL2 s a d).2.stepType = .last ↔ ¬ ∃ a', legal (stepL2 s a d).1.board a' := by
+  rw [Game2048.stepL2_last_iff, ← Game2048.canPlay_iff]; simp
+
+-- a 2×2 state where Left merges 2+2, spawns a 4 on cell 3 and leaves a playable board; and the refinement's hypotheses hold
+example : Square (reset 2 ⟨0, 1⟩).1.board ∧ (reset 2 ⟨0, 1⟩).1.actionMask = legalMask (reset 2 ⟨0, 1⟩).1.board ∧
+    (stepL2 (reset 2 ⟨0, 1⟩).1 1 ⟨0, 1⟩).1.board = [[1, 1], [0, 0]] ∧
+    (stepL2 (stepL2 (reset 2 ⟨0, 1⟩).1 1 ⟨0, 1⟩).1 3 ⟨3, 2⟩).2.reward = [4] := by
+  refine ⟨by unfold Square; decide +kernel, by decide +kernel, by decide +kernel, by decide +kernel⟩
 end Props.C09
 
 namespace Props.C04
@@ -51,6 +72,15 @@ theorem game2048_step_agrees (s : State) (a : Nat) (ha : a < 4) (hs : Square s.b
     Jx.getWC s.actionMask false (a : Int) = true ↔ legal s.board a := Game2048.step_agrees s a ha hs hm
 
 example : legal [[1, 1], [0, 2]] 3 ∧ ¬ legal [[1, 2], [0, 0]] 0 := by decide +kernel
+
+/-- (wave 3; the statement above only relates the cached mask bit to the rules) the reaction of `step` ITSELF: from every
+consistent state (every state of every play from `reset`), for each of the four moves and every draw that is valid when a
+tile is spawned, the rules allow the move IFF `step` put a new tile on the board (the tile sum changed — this is how the
+harness reads "the environment treated the move as valid" off a transition) IFF `step` changed the board at all -/
+theorem game2048_step_reaction (n : Nat) (s : State) (a : Nat) (d : Draw) (ha : a < 4) (hc : Consistent n s)
+    (hd : legal s.board a → validDraw (slideBoard s.board (Dir.ofAction a)) d) :
+    (legal s.board a ↔ boardSum (step s a d).1.board ≠ boardSum s.board) ∧
+    (legal s.board a ↔ (step s a d).1.board ≠ s.board) := Game2048.step_reaction n s a d ha hc hd
 
 /-- whenever the rules allow a move (it changes the board) the slid board has an empty cell -/
 theorem game2048_legal_leaves_empty_cell (b : Board) (a : Nat) (hs : Square b) (hl : legal b a) :
@@ -171,6 +201,16 @@ theorem game2048_step_spawn (n : Nat) (s : State) (a : Nat) (d : Draw) (ha : a <
   rw [hlen] at h
   rw [Game2048.step_board_legal s a d ha hs (Game2048.consistent_mask hc) hl]
   exact h
+
+/-- (wave 3) ALONG WHOLE EPISODES FROM `reset`: for every board size, every valid first tile and every admissible play
+(actions 0..3, legal or not, valid draws where a tile is spawned; the play may run on after LAST), EVERY state met is
+`Consistent` (square board with at least one tile, cached mask = legality, fresh board = one tile) and the tile sum of its
+board is exactly the sum of all tiles spawned so far, the first included (each slide conserves the sum) -/
+theorem game2048_consistent_along (n : Nat) (d0 : Draw) (ads : List (Nat × Draw))
+    (hd0 : validDraw (tab n (fun _ _ => 0)) d0) (hv : ValidPlay (reset n d0).1 ads) (k : Nat) :
+    Consistent n (runState (reset n d0).1 (ads.take k)) ∧
+    boardSum (runState (reset n d0).1 (ads.take k)).board = 2 ^ d0.val + spawnSum (reset n d0).1 (ads.take k) :=
+  Game2048.consistent_along n d0 ads hd0 hv k
 
 -- the hypotheses are satisfiable: 3×3 reset with a 4-tile in the middle, then Up with a 2 spawned at cell 8
 example : validDraw (tab 3 (fun _ _ => 0)) ⟨4, 2⟩ ∧ Consistent 3 (reset 3 ⟨4, 2⟩).1 ∧
@@ -313,4 +353,67 @@ theorem game2048_reset_obs_in_bounds (n : Nat) (d : Draw) :
 /-- the same for the observation returned by `step`, for every state, action and draw, terminal step included -/
 theorem game2048_step_obs_in_bounds (n : Nat) (s : State) (a : Int) (d : Draw) :
     ObsInBounds (obsBounds n) (obsLeaves (step s a d).2.obs) := Game2048.obs_in_bounds n _
+
+/-! #### (wave 3) membership in the DECLARED specs: structure, shapes, dtypes and bounds -/
+open Sp PzS PzS3
+
+/-- the model's `obsSpec` / `actionSpec` / reward and discount specs ARE the specs generated from the real spec objects
+(Gen/Specs.lean) for the catalogue configurations of Game2048 (board sizes 4 and 3) -/
+theorem game2048_obsSpec_generated :
+    prefixed "observation_spec." (obsSpec 4) = declared "game2048-4" "observation_spec." ∧
+    prefixed "observation_spec." (obsSpec 3) = declared "game2048-3" "observation_spec." ∧
+    [("action_spec", actionSpec)] = declared "game2048-4" "action_spec" ∧
+    [("action_spec", actionSpec)] = declared "game2048-3" "action_spec" ∧
+    [("reward_spec", rewardSpec)] = declared "game2048-4" "reward_spec" ∧
+    [("discount_spec", discountSpec)] = declared "game2048-4" "discount_spec" := by
+  refine ⟨by decide, by decide, by decide, by decide, by decide, by decide⟩
+
+/-- the `reset` observation — EVERY board size, EVERY first-tile draw (in the support or not) — is accepted by
+`observation_spec.validate`: fields `board`, `action_mask`; shapes `(n, n)`, `(4,)`; dtypes int32, bool; mask in [0, 1] -/
+theorem game2048_reset_obs_valid (n : Nat) (d : Draw) : (obsSpec n).valid (toNValue (reset n d).2.obs) = true :=
+  Game2048.reset_obs_valid n d
+
+/-- the same for every `step` observation from an `n × n` board (an invariant of `step`: `game2048_step_shaped`), for EVERY
+action value, EVERY draw, the terminal step included -/
+theorem game2048_step_obs_valid (n : Nat) (s : State) (a : Int) (d : Draw) (hs : Shaped s.board n) :
+    (obsSpec n).valid (toNValue (step s a d).2.obs) = true := Game2048.step_obs_valid n s a d hs
+
+/-- … hence for EVERY observation of EVERY play from `reset` (any actions, any draws) -/
+theorem game2048_run_obs_valid (n : Nat) (d0 : Draw) (ads : List (Nat × Draw)) (a : Int) (d : Draw) :
+    (obsSpec n).valid (toNValue (step (runState (reset n d0).1 ads) a d).2.obs) = true := by
+  apply Game2048.step_obs_valid
+  have hl := Game2048.run_board_length (reset n d0).1 ads
+  have hsq := Game2048.run_square (reset n d0).1 ads (Game2048.square_of_shaped (Game2048.reset_shaped n d0))
+  exact (Game2048.shaped_iff _ _).2 ⟨by rw [hl]; exact (Game2048.reset_shaped n d0).1, hsq⟩
+
+/-- what membership means (so the theorems above are not hollow): `validate` accepts ONLY observations whose board has shape
+`(n, n)` with `n·n` entries and whose mask has 4 entries -/
+theorem game2048_obs_valid_only (n : Nat) (o : Obs) (h : (obsSpec n).valid (toNValue o) = true) :
+    gridShape o.board = [n, n] ∧ o.board.flatten.length = n * n ∧ o.actionMask.length = 4 :=
+  Game2048.obs_valid_only n o h
+
+example : (obsSpec 2).valid (toNValue ⟨[[0, 1], [2, 0]], [true, false, true, true]⟩) = true ∧
+    (obsSpec 2).valid (toNValue ⟨[[0, 1, 0], [2, 0, 0]], [true, false, true, true]⟩) = false ∧
+    (obsSpec 2).valid (toNValue ⟨[[0, 1], [2, 0]], [true, false, true]⟩) = false := by decide
+
+/-- reward and discount of every `step` (ALL states, ALL action values, ALL draws) and of `reset` are accepted by
+`reward_spec` (Array((), float)) and `discount_spec` (BoundedArray((), float, 0, 1)) -/
+theorem game2048_reward_discount_valid (n : Nat) (s : State) (a : Int) (d d0 : Draw) :
+    rewardSpec.valid (scalarArr (step s a d).2.reward) = true ∧
+    discountSpec.valid (scalarArr (step s a d).2.discount) = true ∧
+    rewardSpec.valid (scalarArr (reset n d0).2.reward) = true ∧
+    discountSpec.valid (scalarArr (reset n d0).2.discount) = true :=
+  ⟨(Game2048.step_reward_discount_valid s a d).1, (Game2048.step_reward_discount_valid s a d).2,
+   (Game2048.reset_reward_discount_valid n d0).1, (Game2048.reset_reward_discount_valid n d0).2⟩
+
+/-- `action_spec.generate_value()` = 0 (Up): the action spec is well-formed, the generated value is a member of it, and
+`step` answers it in every `n × n` state (whatever the draw) with a protocol-conform timestep whose observation is a member
+of `observation_spec`; membership in `action_spec` is exactly "one of the four moves" -/
+theorem game2048_accepts_generate_value (n : Nat) (s : State) (d : Draw) (hs : Shaped s.board n) :
+    actionSpec.WF = true ∧ actionSpec.valid actionSpec.generate = true ∧ actionSpec.generate = actionArr 0 ∧
+    StepOK none false (step s 0 d).2 = true ∧ (obsSpec n).valid (toNValue (step s 0 d).2.obs) = true :=
+  Game2048.accepts_generate_value n s d hs
+
+theorem game2048_action_spec_iff (a : Int) : actionSpec.valid (actionArr a) = true ↔ 0 ≤ a ∧ a < 4 :=
+  Game2048.actionSpec_valid_iff a
 end Props.C01
